@@ -1,9 +1,11 @@
 CONFIG = {
     "manifest": {
         "text": "Theorems (Qed, closed under the global context) over every history of series creation, deletion, re-creation, measurement "
-                "drops, TSI log->file and level compactions, series-file compactions and reopen, for any number of shards and any regexp oracle: "
+                "drops, deletion of whole shards (retention; no index rebuild follows), TSI log->file and level compactions, series-file compactions and segment roll-overs and reopen, for any number of shards and any regexp oracle: "
                 "every listing of the inmem model and of the TSI (LSM) model - measurement names, tag keys, tag values, series keys, each with any "
-                "=,!=,=~,!~,AND,OR predicate, exact cardinalities, series-file listing - equals the projection of the abstract series set; "
+                "=,!=,=~,!~,AND,OR predicate, exact cardinalities, series-file listing, and the series listing of a shard answered by a TSI index converted offline from the shard's files "
+                "(buildtsi: DisableFsync log buffer of any capacity, any batch size) - equals the projection of the abstract series set; "
+                "the next series id recovered from the segment files at open is the one in memory and above every id in use; the lazily sorted id list of an inmem measurement is never observable; "
                 "compactions leave every listing unchanged; both index types answer identically. The models are diffed on every run against a real "
                 "tsdb.Store opened once per index type on the same generated history (three-way: inmem impl, tsi1 impl, abstract set). "
                 "Partial: TSI/series-file file formats, hash maps, bloom filters and HLL sketches are abstracted to entry lists "
@@ -19,14 +21,17 @@ CONFIG = {
     "n": {"quick": 80, "thorough": 3000},
     "shrink": True,
     "shard": 250,
-    "extra_proof_files": ["ProofsBase", "ProofsQuery", "ProofsSfile", "ProofsLsmA", "ProofsLsmB", "ProofsLsmC", "ProofsLsmD", "ProofsLsmE",
-                          "ProofsLsmF", "ProofsLsmG", "ProofsLsmH", "ProofsTs", "ProofsTsAns", "ProofsInmem", "ProofsInmem2", "ProofsInmem3", "ProofsInmemAns"],
+    "extra_proof_files": ["ProofsBase", "ProofsQuery", "ProofsClean", "ProofsSfile", "ProofsLsmA", "ProofsLsmB", "ProofsLsmC", "ProofsLsmD", "ProofsLsmE",
+                          "ProofsLsmF", "ProofsLsmG", "ProofsLsmH", "ProofsConv", "ProofsTs", "ProofsTsAns", "ProofsInmem", "ProofsInmem2", "ProofsInmemW", "ProofsInmem3", "ProofsInmemAns", "ProofsSorted"],
     "harness_timeout": {"quick": 900, "thorough": 7200},
-    "rule": "corpus (9 minimal witnesses of the four repaired defects and of the mutation classes) and designed histories first (16: the witnesses of the four repaired defects and multi-level / re-creation / restart scenarios, each with a "
-            "battery of ~30 queries after every phase), then seeded histories (35% start with a per-measurement churn: 2-4 rounds of write-some / DELETE of one single older series / write-new / DELETE of another older series, no reopen, listings after every step): 1-3 shards, tsi partitions 1/2/8, MaxIndexLogFileSize 1/200/1MB, "
+    "rule": "corpus (minimal witnesses of the four repaired defects and of the mutation classes) and designed histories first (33: the witnesses of the four repaired defects, multi-level / re-creation / restart scenarios, "
+            "tombstone+re-insert of one series id in one log file while another shard keeps the id alive followed by log swap, a tombstone merged upwards while its target sits in an older higher-level file followed by reopen, "
+            "series-file segment roll-over (hook VerifRollSegment) followed by tombstones/reopen/new series, shard deletion followed by as many new series as were dropped, offline buildtsi conversion; each with a "
+            "battery of ~30 queries after every phase), then seeded histories (30% start with a per-measurement churn: 2-4 rounds of write-some / DELETE of one single older series / write-new / DELETE of another older series, no reopen, listings after every step; "
+            "10% drop+re-add of a series in one active log file with another shard holding it; 8% multi-level compaction with a late tombstone and reopen; 9% segment roll-over + reopen + new series; 10% shard deletion with count-matched re-creation): 1-3 shards, tsi partitions 1/2/8, MaxIndexLogFileSize 1/200/1MB, "
             "series-file compact threshold 0/1/2/4, tag value cache on/off; 4-25 steps of write (1-4 series, 35% re-creations), DELETE with/without "
-            "FROM and predicate over all/prefix/suffix/one shard, DROP MEASUREMENT, forced TSI log+level compaction, series-file compaction, cache "
-            "snapshot, close/reopen; 0-2 queries after each step. One case = (history prefix, one query, answers of both real stores); "
+            "FROM and predicate over all/prefix/suffix/one shard, DROP MEASUREMENT, Store.DeleteShard (+CreateShard), forced TSI log+level compaction (all levels cascade), series-file compaction, segment roll-over, cache "
+            "snapshot, close/reopen; 0-2 queries after each step, 30% end with 1-2 conversion queries (files copied, buildtsi.IndexShard with batch 1/2/3/1000 and MaxLogFileSize 1MB/1, result opened and listed). One case = (history prefix, one query, answers of both real stores); "
             "distinct = distinct (configuration, prefix, query); non-trivial = at least one write and (non-empty answer or a delete happened)",
     "trusted_base": [
         "C14: TSI index file / log file / series file byte formats, hash indexes, bloom filters and HLL sketches are NOT modelled (entry lists); cardinality estimates are not compared, only the exact bitmap path",
@@ -34,12 +39,15 @@ CONFIG = {
         "C14: the engine's data (TSM files, cache, WAL) is represented by the set of (shard, series) pairs with points; every delete of the histories covers all points of the shards it names (partial-range deletes are C10's subject)",
         "C14: the hash partitioning of a TSI index (8 partitions) and of the series file (8 partitions) is modelled as a single partition; the harness runs the real code with 1, 2 and 8 partitions",
         "C14: background compactions are allowed to finish before each step and each observation (the theorems say listings do not depend on the compaction schedule; the harness forces the real ones through exported API)",
+        "C14: a series-file segment roll-over is forced through the add-only hook tsdb.VerifRollSegment (calls the unexported createSegment as writeLogEntry does when an entry does not fit); byte sizes of segments and of the tsi1 log buffer are abstracted (a roll-over / a flush may happen after any entry; the theorems quantify over all placements)",
+        "C14: the lazily sorted id list of an inmem measurement object (sortedSeriesIDs) is modelled and proven transparent separately (mcache in Model.v, ProofsSorted.v); it has no correspondence cases of its own (the measurement type is unexported), the differential run sees it through the listings after shard deletions",
+        "C14: a deleted shard is created again empty by the harness (the model keeps shards 1..n); the conversion query copies the live store's files (series file, TSM, tombstones, WAL) while the store is open",
     ],
-    "modelled": "tsdb/series_file.go + series_partition.go + series_index.go (id<->key map, tombstones, log, compaction, recovery); tsdb/index/inmem "
-                "(Index/ShardIndex create, drop, dirty+Rebuild, DropSeriesGlobal, LoadMetadataIndex re-add); tsdb/index/tsi1 (log entries and their "
+    "modelled": "tsdb/series_file.go + series_partition.go + series_index.go (id<->key map, tombstones, log, segment files with their max ids, createSegment, compaction, index recovery and next-id recovery in openSegments); tsdb/index/inmem "
+                "(Index/ShardIndex create, drop, dirty+Rebuild, DropSeriesGlobal with and without a following Rebuild, LoadMetadataIndex re-add, measurement.sortedSeriesIDs/SeriesIDs/AddSeries/DropSeries); tsdb/index/tsi1 (log entries and their "
                 "execution, replay at open, LogFile.CompactTo, IndexFiles.CompactTo incl. buildSeriesIDSets, FileSet merge iterators, "
                 "Partition series-id-set filter, DropMeasurement); tsdb/index.go IndexSet query layer and tsdb/store.go MeasurementNames/TagKeys/"
-                "TagValues/SeriesCardinality/DeleteSeries/DeleteMeasurement; tsdb/engine/tsm1 deleteSeriesRange index part. Not modelled: "
+                "TagValues/SeriesCardinality/DeleteSeries/DeleteMeasurement/DeleteShard; tsdb/engine/tsm1 deleteSeriesRange index part; cmd/influx_inspect/buildtsi IndexShard with the DisableFsync log buffer and LogFile.Close flush. Not modelled: "
                 "authorizers, field predicates, _name/_tagKey regex forms, sketches, TagSets/iterators of SELECT, concurrency",
     "assumptions": ["series are well-formed (distinct tag keys, non-empty tag values): models.Tags invariant",
                     "tag keys of predicates are not field names and not system names (_name, _tagKey, time)",
